@@ -91,7 +91,9 @@ class C14(core.Check):
         "or all 24/4 + 8 (thorough) transformations: rotational corner renumbering of every cell, rotation by a random "
         "rational quaternion, translation, uniform scale factor in 0.1..100 (and combinations). Stretch cases: a cube / "
         "square of side 0.5..100 under a random rigid motion, stretched by two factors 1 <= s1 < s2 <= 10 along each of its "
-        "directions. Boundary stream: degenerate cells (coincident points). Non-trivial = not degenerate; distinct = "
+        "directions. Histories: one grid object on a jittered row of 2..4 cells through read / grid.update(i, position) steps, "
+        "compared at every read with a freshly built grid and at the end with fresh grids on rigidly moved points. "
+        "Boundary stream: degenerate cells (coincident points). Non-trivial = not degenerate; distinct = "
         "different case dict."
     )
     assumptions = [
@@ -201,6 +203,23 @@ class C14(core.Check):
                     break
         return pts, cells
 
+    def _row(self, rng, kind, ncell):
+        """a jittered row of `ncell` cells (cell i and i+1 share a side; the end cells have points of their own)"""
+        while True:
+            if kind == "quad":
+                idx = lambda i, j: j * (ncell + 1) + i
+                pts = [[F(i) + _dy(rng, -0.15, 0.15), F(j) + _dy(rng, -0.15, 0.15), F(0)] for j in range(2) for i in range(ncell + 1)]
+                cells = [[idx(i, 0), idx(i + 1, 0), idx(i + 1, 1), idx(i, 1)] for i in range(ncell)]
+                if all(self._convex_quad(pts, c) for c in cells):
+                    return pts, cells
+            else:
+                idx = lambda i, j, k: (k * 2 + j) * (ncell + 1) + i
+                pts = [[F(i) + _dy(rng, -0.15, 0.15), F(j) + _dy(rng, -0.15, 0.15), F(k) + _dy(rng, -0.15, 0.15)]
+                       for k in range(2) for j in range(2) for i in range(ncell + 1)]
+                cells = [[idx(i + a, b, c) for (a, b, c) in (_bits(q) for q in range(8))] for i in range(ncell)]
+                if all(_vol_ok(pts, c) for c in cells):
+                    return pts, cells
+
     def _small_grid(self, rng, kind):
         from .c15 import _extrude, _structured_quads
 
@@ -269,6 +288,43 @@ class C14(core.Check):
             cases.append({"kind": kind, "tag": "stretch", "side": str(L), "factors": [str(s1), str(s2)],
                           "quat": self._quat(rng) if rng.random() < 0.7 else None,
                           "trans": [str(_dy(rng, -20, 20, 8)) for _ in range(3)]})
+        # ---- round 2: histories on one grid: read, grid.update(i, position), read ... compared with freshly built grids
+        for k in range(max(6, n // 3)):
+            kind = "hex" if rng.random() < 0.5 else "quad"
+            ncell = rng.randint(2, 4)
+            pts, cells = self._row(rng, kind, ncell)
+            k0 = F(rng.choice([1, 1, 2, 5]))
+            pts = [[k0 * x for x in p] for p in pts]
+            npts = len(pts)
+            cur = [list(p) for p in pts]
+            hops: List[list] = [["R"]]
+            if rng.random() < 0.25:
+                # a translation carried out point after point
+                shift = [k0 * _dy(rng, -0.5, 0.5), k0 * _dy(rng, -0.5, 0.5), k0 * _dy(rng, -0.5, 0.5) if kind == "hex" else F(0)]
+                order = list(range(npts))
+                rng.shuffle(order)
+                for i in order:
+                    cur[i] = [a + b for a, b in zip(cur[i], shift)]
+                    hops.append(["U", i, [str(x) for x in cur[i]]])
+                    if rng.random() < 0.15:
+                        hops.append(["R"])
+                tag = "history-translate"
+            else:
+                end_only = [i for i in cells[0] if i not in cells[1]] + [i for i in cells[-1] if i not in cells[-2]]
+                for _ in range(rng.randint(1, 4)):
+                    i = rng.choice(end_only) if rng.random() < 0.7 else rng.randrange(npts)
+                    d = [k0 * _dy(rng, -0.2, 0.2), k0 * _dy(rng, -0.2, 0.2), k0 * _dy(rng, -0.2, 0.2) if kind == "hex" else F(0)]
+                    cur[i] = [a + b for a, b in zip(cur[i], d)]
+                    hops.append(["U", i, [str(x) for x in cur[i]]])
+                    if rng.random() < 0.4:
+                        hops.append(["R"])
+                tag = "history"
+            if hops[-1] != ["R"]:
+                hops.append(["R"])
+            moves = [{"trans": [str(_dy(rng, -20, 20, 8)) for _ in range(3)]},
+                     {"quat": self._quat(rng), "trans": [str(_dy(rng, -20, 20, 8)) for _ in range(3)]}]
+            cases.append({"kind": kind, "tag": tag, "cls": "history", "points": S(pts), "cells": cells, "hops": hops,
+                          "moves": moves})
         # boundary stream: degenerate cells
         cases.append({"kind": "quad", "tag": "degenerate", "points": S([[0, 0, 0], [0, 0, 0], [1, 1, 0], [0, 1, 0]]),
                       "cells": [[0, 1, 2, 3]], "transforms": [{}, {"sigma": [ROT4[1]]}]})
@@ -312,6 +368,8 @@ class C14(core.Check):
         from classy_blocks.optimize.grid import HexGrid, QuadGrid
 
         cls = HexGrid if case["kind"] == "hex" else QuadGrid
+        if case.get("cls") == "history":
+            return self._run_history(case, cls)
         evals = []
         for pts, cells in self._grids(case):
             fp = np.array([[float(x) for x in p] for p in pts], dtype=float)
@@ -342,8 +400,54 @@ class C14(core.Check):
             evals.append(entry)
         return {"evals": evals}
 
+    def _run_history(self, case, cls) -> Any:
+        """one grid object through reads and grid.update calls; next to every read the values of a grid built
+        freshly on the same points, at the end also on rigidly moved copies of them"""
+        import warnings
+
+        import numpy as np
+
+        def values(grid):
+            vals: List[Any] = []
+            for c in grid.cells:
+                try:
+                    vals.append(float(c.quality))
+                except ValueError:
+                    vals.append("degenerate")
+                finally:
+                    warnings.resetwarnings()
+            return vals
+
+        cells = [list(c) for c in case["cells"]]
+        fp = np.array([[float(F(x)) for x in p] for p in case["points"]], dtype=float)
+        grid = cls(fp.copy(), [list(c) for c in cells])
+        steps = []
+        for op in case["hops"]:
+            if op[0] == "R":
+                steps.append({"read": values(grid), "fresh": values(cls(grid.points.copy(), [list(c) for c in cells]))})
+            else:
+                try:
+                    ret: Any = float(grid.update(op[1], np.array([float(F(x)) for x in op[2]])))
+                except ValueError:
+                    ret = "degenerate"
+                finally:
+                    warnings.resetwarnings()
+                steps.append({"ret": ret})
+        moved = []
+        cur = [[F(float(x)) for x in p] for p in grid.points]
+        for t in case["moves"]:
+            mp = np.array([[float(x) for x in p] for p in transform_points(cur, t)], dtype=float)
+            moved.append(values(cls(mp, [list(c) for c in cells])))
+        return {"steps": steps, "moved": moved, "start": [[core.rat(float(x)) for x in p] for p in fp]}
+
     # ------------------------------------------------------------------ model
     def requests(self, case: dict, impl: Any) -> List[str]:
+        if case.get("cls") == "history":
+            cells = ";".join("[" + ",".join(map(str, c)) + "]" for c in case["cells"])
+            pts = ";".join(",".join(p) for p in impl["start"])
+            ops = "|".join("R" if op[0] == "R" else f"U{op[1]}:" + ",".join(core.rat(float(F(x))) for x in op[2])
+                           for op in case["hops"])
+            return [f"c14.hist {case['kind']} {cells} {pts} {ops}"]
         reqs = []
         for e in impl["evals"]:
             cells = ";".join("[" + ",".join(map(str, c)) + "]" for c in e["cells"])
@@ -363,6 +467,24 @@ class C14(core.Check):
         return out
 
     def compare(self, case: dict, impl: Any, model: List[str]) -> Optional[str]:
+        if case.get("cls") == "history":
+            segs = model[0].split("|")
+            if len(segs) != len(impl["steps"]):
+                return f"history: model answers {model[0][:80]}"
+            val = lambda t: None if t == "degenerate" else _bits_to_float(t)
+            for k, (seg, st) in enumerate(zip(segs, impl["steps"])):
+                if "read" in st:
+                    ms = [val(t) for t in seg.split(";")]
+                    for ci, (a, b) in enumerate(zip(st["read"], ms)):
+                        if (a == "degenerate") != (b is None) or (b is not None and not abs(a - b) <= 1e-8 * max(1.0, abs(a))):
+                            return (f"history step {k} (read) cell {ci}: the grid reports {a!r}, the model (= a fresh grid on the "
+                                    f"current points) {b!r}; history {case['hops'][:k + 1]}")
+                else:
+                    b = val(seg[1:])
+                    a = st["ret"]
+                    if (a == "degenerate") != (b is None) or (b is not None and not abs(a - b) <= 1e-8 * max(1.0, abs(a))):
+                        return f"history step {k} {case['hops'][k]}: update returns {a!r}, model junction quality {b!r}"
+            return None
         for k, (e, line) in enumerate(zip(impl["evals"], model)):
             if line in ("reject",):
                 return f"evaluation {k}: model rejects the grid"
@@ -418,6 +540,8 @@ class C14(core.Check):
         out: List[dict] = []
         kind = case["kind"]
         cls = "HexCell" if kind == "hex" else "QuadCell"
+        if case.get("cls") == "history":
+            return self._oracle_history(case, impl, cls)
         ev = impl["evals"]
         if case["tag"] == "stretch":
             dims = 3 if kind == "hex" else 2
@@ -445,6 +569,8 @@ class C14(core.Check):
                     break
             return out
         if case["tag"] == "degenerate":
+            return out
+        if case.get("cls") == "history":
             return out
         base = ev[0]
         for t, e in zip(case["transforms"][1:], ev[1:]):
@@ -477,12 +603,50 @@ class C14(core.Check):
                         return out
         return out
 
+    @staticmethod
+    def _oracle_history(case, impl, cls) -> List[dict]:
+        """the value of a cell depends on the shape now, not on what was read or moved before: every read equals what a
+        grid built freshly on the same points reports, and (within float rounding) on rigidly moved points"""
+        out: List[dict] = []
+        differ = lambda a, b, rel: (a == "degenerate") != (b == "degenerate") or (
+            a != "degenerate" and abs(a - b) > rel * max(1.0, abs(a)))
+        first = last = None
+        for k, st in enumerate(impl["steps"]):
+            if "read" not in st:
+                continue
+            first = st if first is None else first
+            last = st
+            for ci, (a, b) in enumerate(zip(st["read"], st["fresh"])):
+                if differ(a, b, 1e-9):
+                    out.append({"site": f"{cls}.quality:depends-on-history-of-updates",
+                                "what": f"after {case['hops'][:k + 1]} cell {ci} reports {a!r}, a grid built from the same points "
+                                        f"reports {b!r}", "observed": a, "expected": b})
+                    return out
+        if last is not None:
+            for t, vals in zip(case["moves"], impl["moved"]):
+                for ci, (a, b) in enumerate(zip(last["read"], vals)):
+                    if differ(a, b, 2e-6):
+                        out.append({"site": f"{cls}.quality:history-grid-differs-from-moved-fresh-grid",
+                                    "what": f"after {case['hops']} cell {ci} reports {a!r}, a fresh grid on the same points moved by "
+                                            f"{t} reports {b!r}", "observed": a, "expected": b})
+                        return out
+            if case["tag"] == "history-translate":
+                for ci, (a, b) in enumerate(zip(first["read"], last["read"])):
+                    if differ(a, b, 2e-6):
+                        out.append({"site": f"{cls}.quality:changed-by-pointwise-translation",
+                                    "what": f"all points were shifted by the same vector one after another; cell {ci}: {a!r} -> {b!r}",
+                                    "observed": b, "expected": a})
+                        return out
+        return out
+
     def nontrivial_key(self, case, impl):
         if case["tag"] == "degenerate":
             return None
         return json.dumps(case, sort_keys=True)
 
     def classify(self, case, impl):
+        if case.get("cls") == "history":
+            return f"{case['kind']}:{case['tag']}:{sum(1 for o in case['hops'] if o[0] == 'U')}u"
         if case["tag"] in ("stretch", "degenerate", "grid"):
             return f"{case['kind']}:{case['tag']}"
         return f"{case['kind']}:{case['tag']}:{len(case['transforms'])}t"
